@@ -24,6 +24,7 @@ ALLOWED_AXIOMS_PREFIX = (
     # Coq's primitive machine integers / floats and the standard library's own
     # specification axioms for them (named in the trusted base)
     "PrimFloat.", "PrimInt63.", "FloatAxioms.", "Uint63Axioms.", "Uint63.", "Sint63Axioms.",
+    "FunctionalExtensionality.",
 )
 
 
